@@ -52,6 +52,7 @@ def evaluate(prop, tag, lines, bindir, shards=16, timeout=1800, want_model=True,
     env_stack = 'ulimit -s unlimited 2>/dev/null;'
     rcs = _run_parallel(cmds_impl + cmds_model, timeout)
     impl, model, verdict = {}, {}, {}
+    hangs = 0
     for i, part in enumerate(parts):
         seen = set()
         with open(os.path.join(d, 'impl.%d' % i), errors='replace') as f:
@@ -65,6 +66,11 @@ def evaluate(prop, tag, lines, bindir, shards=16, timeout=1800, want_model=True,
         missing = [l for l in part if l.split(' ', 1)[0] not in seen]
         for l in missing:
             cid = l.split(' ', 1)[0]
+            if hangs >= 3:
+                # a library that loops: three attributed hangs are enough, the rest stays unobserved
+                # (reported as a hang as well - it was part of a run that did not finish)
+                impl[cid] = {'HANG': 'unobserved'}
+                continue
             one = os.path.join(d, 'one.case')
             with open(one, 'w') as f:
                 f.write(l + '\n')
@@ -79,6 +85,7 @@ def evaluate(prop, tag, lines, bindir, shards=16, timeout=1800, want_model=True,
                     impl[cid] = {'ABORT': 'rc%d' % p.returncode}
             except subprocess.TimeoutExpired:
                 impl[cid] = {'HANG': '60s'}
+                hangs += 1
         if want_model:
             with open(os.path.join(d, 'model.%d' % i), errors='replace') as f:
                 for l in f:
